@@ -163,4 +163,103 @@ class UnphaseAfterPhase(BCheck):
         return None
 
 
-B_CHECKS = [UnphaseFiles(), UnphaseAfterPhase()]
+class PysamModelConformance(BCheck):
+    name = "C13.pysam-model-conformance"
+    contract = ("the clauses of contracts/pysam_model.py hold for the real pysam objects: call.phased == every allele after the first carries the phase bit "
+                "(text: no '/' separator); call['GT'] = x stores x and clears every phase bit; call.phased = v sets every separator; `tag in call` == "
+                "`tag in record.format`; del record.format[tag] removes the key for every call and keeps the others; call[tag] = None leaves the other "
+                "calls' value; write() serialises the record as it is at that moment; iteration yields the records in file order")
+    rule = ("the same generated VCF texts as C13.run_unphase; every clause is tried on every record/call of the file; non-trivial = file has a phased or "
+            "non-diploid call")
+    budget_s = {"quick": 40, "thorough": 300}
+    chunk = 20
+
+    def inputs(self, tier, rng):
+        n = 300 if tier == "quick" else 4000
+        for i in range(n):
+            r = random.Random(rng.getrandbits(64))
+            sc = V.generate(r, phasing=[None, "PS", "HP", "mixed"][i % 4],
+                            gt_kinds=("homref", "het", "het", "het_rev", "homalt", "missing", "half", "half_phased", "dot", "haploid"),
+                            ploidies=(2, 2, 3, 1, 4) if i % 3 == 0 else (2,), mixed_ploidy=(i % 3 == 0), no_gt_records=0.15 if i % 5 == 0 else 0.0)
+            yield dict(vcf=V.render(sc))
+
+    def nontrivial(self, inp):
+        return UnphaseFiles.nontrivial(self, inp)
+
+    def check(self, inp):
+        import pysam
+        d = tempfile.mkdtemp(prefix="c13m_")
+        try:
+            path = os.path.join(d, "in.vcf")
+            with open(path, "w") as f:
+                f.write(inp["vcf"])
+            _h, _s, recs = V.parse(inp["vcf"])
+            rd = pysam.VariantFile(path)
+            out = os.path.join(d, "out.vcf")
+            wr = pysam.VariantFile(out, "w", header=rd.header)
+            expected_lines = []
+            n = 0
+            for k, rec in enumerate(rd):
+                n += 1
+                if k >= len(recs) or rec.pos != recs[k]["pos"] or rec.chrom != recs[k]["chrom"]:
+                    return dict(expected="record %d of the file" % k, observed="%s:%d" % (rec.chrom, rec.pos), clause="file-order")
+                keys = list(rec.format.keys())
+                for j, call in enumerate(rec.samples.values()):
+                    for t in ("GT", "PS", "HP", "PQ", "DP"):
+                        if (t in call) != (t in rec.format):
+                            return dict(expected="`%s in call` == `%s in record.format`" % (t, t), observed=(t in call, t in rec.format), clause="tag-in-call")
+                    if "GT" not in rec.format:
+                        continue
+                    text_gt = recs[k]["calls"][j].get("GT", ".")
+                    gt = call["GT"]
+                    seps = [c for c in text_gt if c in "/|"]
+                    if gt is not None and len(gt) != len(seps) + 1:
+                        return dict(expected="len(GT) == alleles in %r" % text_gt, observed=gt, clause="gt-shape")
+                    if call.phased != all(c == "|" for c in seps):
+                        return dict(expected="call.phased == no '/' separator in %r" % text_gt, observed=call.phased, clause="phased-getter")
+                    if gt is None:
+                        continue
+                    call["GT"] = tuple(gt)
+                    if call["GT"] != tuple(gt) or (len(gt) > 1 and call.phased):
+                        return dict(expected="after call['GT']=x: GT == x and no phase bit", observed=(call["GT"], call.phased), clause="set-gt-clears-phase")
+                    call.phased = True
+                    if not call.phased or call["GT"] != tuple(gt):
+                        return dict(expected="call.phased = True sets every separator and keeps the alleles", observed=(call["GT"], call.phased), clause="set-phased")
+                    call.phased = False
+                    if len(gt) > 1 and call.phased:
+                        return dict(expected="call.phased = False clears every separator", observed=call.phased, clause="set-phased")
+                if "PS" in rec.format and len(rec.samples) > 1:
+                    before = rec.samples[1]["PS"]
+                    rec.samples[0]["PS"] = None
+                    if rec.samples[0]["PS"] is not None or rec.samples[1]["PS"] != before or "PS" not in rec.format:
+                        return dict(expected="call[tag]=None affects that call only, key stays", observed=(rec.samples[0]["PS"], rec.samples[1]["PS"]), clause="set-none")
+                for t in ("HP", "PS"):
+                    if t in rec.format:
+                        del rec.format[t]
+                        if t in rec.format or any(t in c for c in rec.samples.values()):
+                            return dict(expected="del record.format[%s] removes the key for every call" % t, observed=list(rec.format.keys()), clause="del-format")
+                        if [x for x in keys if x != t and x in ("GT", "DP", "PQ", "PS", "HP")] != [x for x in rec.format.keys() if x in ("GT", "DP", "PQ", "PS", "HP")]:
+                            return dict(expected="other keys kept", observed=list(rec.format.keys()), clause="del-format")
+                        keys = [x for x in keys if x != t]
+                snapshot = str(rec)
+                wr.write(rec)
+                expected_lines.append(snapshot.rstrip("\n"))
+                if "GT" in rec.format:
+                    for call in rec.samples.values():        # modifications after write() must not reach the output
+                        if call["GT"] is not None and len(call["GT"]) > 1:
+                            call.phased = not call.phased
+            wr.close()
+            if n != len(recs):
+                return dict(expected="%d records" % len(recs), observed=n, clause="file-order")
+            with open(out) as f:
+                got = [l for l in f.read().split("\n") if l and not l.startswith("#")]
+            if got != expected_lines:
+                return dict(expected="write() serialises the record as it was when written", observed=[x for x in zip(got, expected_lines) if x[0] != x[1]][:1], clause="write-snapshot")
+            return None
+        finally:
+            for x in os.listdir(d):
+                os.unlink(os.path.join(d, x))
+            os.rmdir(d)
+
+
+B_CHECKS = [UnphaseFiles(), UnphaseAfterPhase(), PysamModelConformance()]
